@@ -10,7 +10,33 @@ CLASSES = ['K', 'L']
 MODS = ['os', 'sys', 'json', 'os.path']
 
 
+def gen_flat(rng):
+    """A long straight-line flow (70-160 bindings without any branch), rebinding a few names over and over, with a
+    class or two so that which binding a read sees is observable: thresholds on the number of names in one flow,
+    incremental tables and the like only show on code of this shape."""
+    n = rng.choice((70, 90, 130, 160))
+    names = ['h', 'k', 'm']
+    body = [['class', 'KA', [], [['assign', 'attr', "'KA'"], ['assign', 'only_a', '1']]],
+            ['class', 'KB', [], [['assign', 'attr', "'KB'"], ['assign', 'only_b', '1']]]]
+    for i in range(n):
+        x = rng.random()
+        if x < 0.12:
+            body.append(['assign', rng.choice(names), rng.choice(('KA()', 'KB()', 'KA', 'KB', '%d' % i))])
+        elif x < 0.2:
+            body.append(['assign', 'r%d' % i, rng.choice(names)])
+        elif x < 0.25:
+            body.append(['expr', 'print(%s.attr)' % rng.choice(names)])
+        else:
+            body.append(['assign', 'f%d' % i, '%d' % i])
+    body.append(['expr', 'print(%s)' % ', '.join(names)])
+    if rng.random() < 0.5:
+        return {'profile': 'flat', 'body': [['def', 'flat', [], body + [['return', rng.choice(names)]]]]}
+    return {'profile': 'flat', 'body': body}
+
+
 def gen_program(rng, profile='loops', size=None):
+    if profile == 'flat':
+        return gen_flat(rng)
     size = size or rng.choice((6, 10, 16, 24, 40))
     for _ in range(8):
         g = _Gen(rng, profile, size)
@@ -189,7 +215,9 @@ class _Gen(object):
         if shape == 'instances':
             # alternatives are instances (or the classes themselves) of classes that share attribute names
             cls = ['KA', 'KB', 'KC'][:r.choice((2, 3))]
-            defs = [['class', c, [], [['assign', 'attr', "'%s'" % c], ['def', 'meth', ['self'], [['return', "'%s'" % c]]]]]
+            defs = [['class', c, [], [['assign', 'attr', "'%s'" % c], ['assign', 'Attr', "'%s'" % c],
+                                      ['def', 'meth', ['self'], [['return', "'%s'" % c]]],
+                                      ['def', 'Meth', ['self'], [['return', "'%s'" % c]]]]]
                     for c in cls]
             call = '()' if r.random() < 0.7 else ''
             branches = [[['assign', name, c + call]] for c in cls]
